@@ -2,6 +2,7 @@ package main
 
 import (
 	"fmt"
+	"os"
 	"go/token"
 	"go/types"
 	"sort"
@@ -49,6 +50,9 @@ func (fr *frame) loopTouched(li *loopInfo) (names map[string]bool, all bool) {
 					return
 				}
 			}
+			if os.Getenv("GOWP_DEBUG_TOUCH") != "" {
+				fmt.Fprintln(os.Stderr, "loopTouched: invoke without contract:", key)
+			}
 			all = true
 			return
 		}
@@ -71,19 +75,46 @@ func (fr *frame) loopTouched(li *loopInfo) (names map[string]bool, all bool) {
 				for _, n := range libTouches[key] {
 					names[n] = true
 				}
+				if key == "golang.org/x/sync/errgroup.(*Group).Go" && len(c.Args) == 2 {
+					// the function handed to the group runs here (fork/join model)
+					names["EG$err"] = true
+					var f *ssa.Function
+					if mc, ok := c.Args[1].(*ssa.MakeClosure); ok {
+						f, _ = mc.Fn.(*ssa.Function)
+					} else if fn, ok := c.Args[1].(*ssa.Function); ok {
+						f = fn
+					} else {
+						f = staticClosureOf(c.Args[1])
+					}
+					if f == nil || depth >= 3 {
+						all = true
+						return
+					}
+					bl := map[*ssa.BasicBlock]bool{}
+					for _, b := range f.Blocks {
+						bl[b] = true
+					}
+					visitFn(f, bl, depth+1)
+				}
 				return
 			}
 			if ct := fc.e.specs.Funcs[key]; ct != nil {
 				fr.contractTouches(ct, names, &all)
 				return
 			}
-			if callee.Blocks != nil && depth < 3 && (callee.Parent() != nil || isTrivial(callee)) {
+			if libPure[key] {
+				return
+			}
+			if callee.Blocks != nil && depth < 3 && (callee.Parent() != nil || isTrivial(callee) || (strings.HasPrefix(key, "github.com/google/badwolf") && smallHelper(callee))) {
 				bl := map[*ssa.BasicBlock]bool{}
 				for _, b := range callee.Blocks {
 					bl[b] = true
 				}
 				visitFn(callee, bl, depth+1)
 				return
+			}
+			if os.Getenv("GOWP_DEBUG_TOUCH") != "" {
+				fmt.Fprintln(os.Stderr, "loopTouched: call without contract:", key)
 			}
 			all = true
 		case *ssa.MakeClosure:
